@@ -154,6 +154,7 @@ Definition fmt_expected (v : value) (zero : bool) (w : nat) (tc : ascii) : bytes
   else match v with
        | VInt z => if zero then pad_num false true w (sign_of z) (mag_of z) else ipad false w (dec z)
        | VStr s => s
+       | VFlt _ _ _ => []           (* no precision in these specs: a double is outside the model *)
        end.
 
 Lemma format_value_parse v zero w (tc : bytes) :
